@@ -1,0 +1,57 @@
+//go:build verif
+// +build verif
+
+package ucon
+
+import (
+	"math/big"
+
+	"github.com/youchainhq/go-youchain/common"
+)
+
+// Synchronous observation points for the external verification harness (build tag "verif").
+// AsyncPost is `go mux.Post(...)`, so a mux subscriber sees emissions late and out of order;
+// these hooks see them exactly where they happen. Nil by default.
+var (
+	// VerifOnVote fires after the vote was persisted in the vote DB and before it is posted.
+	VerifOnVote func(v *Voter, voteType VoteType, msg *BlockHashWithVotes)
+	// VerifOnCommit fires when the voter announces a commit, before the CommitEvent is posted.
+	VerifOnCommit func(v *Voter, ev *CommitEvent)
+)
+
+func verifOnVote(v *Voter, voteType VoteType, msg *BlockHashWithVotes) {
+	if VerifOnVote != nil {
+		VerifOnVote(v, voteType, msg)
+	}
+}
+
+func verifOnCommit(v *Voter, ev *CommitEvent) {
+	if VerifOnCommit != nil {
+		VerifOnCommit(v, ev)
+	}
+}
+
+// VerifUpdateContext drives the voter synchronously with a context change (what eventLoop does).
+func (v *Voter) VerifUpdateContext(ev ContextChangeEvent) { v.updateContext(ev) }
+
+// VerifProcessVote drives the voter synchronously with a vote of the current round/index from sender.
+func (v *Voter) VerifProcessVote(sender common.Address, data *BlockHashWithVotes, voteType VoteType) (error, bool) {
+	return v.processVoteMsg(VoteMsgEvent{Msg: &CachedVotesMessage{VotesData: data, addr: sender}, VType: voteType}, msgSame)
+}
+
+// VerifLatches returns the in-memory once-only latches.
+func (v *Voter) VerifLatches() (precommitted, certificated, committed bool) {
+	v.lock.Lock()
+	defer v.lock.Unlock()
+	return v.precommitted, v.certificated, v.committed
+}
+
+// VerifContext returns the voter's current context.
+func (v *Voter) VerifContext() (*big.Int, uint32, uint32) {
+	v.lock.Lock()
+	defer v.lock.Unlock()
+	return v.round, v.roundIndex, v.step
+}
+
+// VerifAddr returns the voter's own address.
+func (v *Voter) VerifAddr() common.Address { return v.addr }
